@@ -95,8 +95,21 @@ i = pos(b, "(*cinfo->idct->start_pass) (cinfo);", "prepare_for_output_pass")
 guard = re.search(r"if\s*\(\s*!\s*cinfo->master->lossless\s*\)\s*$", b[:i].rstrip()) is not None
 facts["output_pass_resets_lossless"] = not guard
 
+jdinput = src("jdinput.c")
+b = body(jdinput, r"\nlatch_quant_tables\s*\(j_decompress_ptr cinfo\)", "latch_quant_tables")
+pos(b, "compptr->quant_table = qtbl", "latch_quant_tables")
+by_copy = (re.search(r"qtbl\s*=\s*\(JQUANT_TBL \*\)\s*\(\*cinfo->mem->alloc_small\)", b) is not None and
+           re.search(r"memcpy\(qtbl,\s*cinfo->quant_tbl_ptrs\[qtblno\],\s*sizeof\(JQUANT_TBL\)\)", b) is not None and
+           re.search(r"qtbl\s*=\s*cinfo->quant_tbl_ptrs", b) is None)
+facts["latch_once_per_component"] = re.search(r"if \(compptr->quant_table != NULL\)\s*continue;", b) is not None
+jddctmgr = src("jddctmgr.c")
+b = body(jddctmgr, r"\nstart_pass\s*\(j_decompress_ptr cinfo\)", "jddctmgr start_pass")
+facts["dct_table_built_once"] = (re.search(r"idct->cur_method\[ci\] == method\)\s*continue;", b) is not None and
+                                 re.search(r"qtbl = compptr->quant_table;\s*if \(qtbl == NULL\)\s*continue;", b) is not None)
+
 print("(* GENERATED by tools/gen_Suspend.py from the current source tree -- do not edit *)")
 print("Definition output_pass_resets_lossless : bool := %s." % ("true" if facts["output_pass_resets_lossless"] else "false"))
+print("Definition latch_by_copy : bool := %s." % ("true" if by_copy else "false"))
 names = [k for k in facts if k != "output_pass_resets_lossless"]
 for k in names:
     print("Definition %s : bool := %s." % (k, "true" if facts[k] else "false"))
